@@ -177,7 +177,7 @@ SHAPES = {
     "Language": [(r"<impl str>::split$", r"c:44"), (r"Iterator::all$", r"")],
     "Cabinet": [(r"<impl str>::strip_prefix$", r"c:35"), (r"Category::validate$", r"Category::Identifier"),
                 # the name is split at its LAST dot: rsplitn(2, '.'), rsplit_once('.') or rfind('.')
-                (r"<impl str>::(rsplitn|rsplit_once|rfind)$", r"(c:2,)?c:46$")],
+                (r"<impl str>::(rsplitn|rsplit_once|rfind)$", r"^[^,]*,(c:2,)?c:46$")],
 }
 PARSE_TY = {"Integer": "i16", "DoubleInteger": "i32"}
 
@@ -213,6 +213,87 @@ def cat_arms(ctx, rule="CAT-ARMS"):
             w = [tt.get("written") or "" for (b, n, args, tt) in cs if n.endswith("<impl str>::parse")]
             ctx.check(any(("parse::<%s>" % PARSE_TY[name]) in x for x in w), rule, "%s parses %s" % (name, PARSE_TY[name]), str(w), "Category::%s parses %s" % (name, w), f.loc(), fn=f.name,
                       key="%s|parse|%s" % (rule, name))
+    # conjunction arms: a string is accepted only after EVERY test of the category's grammar was passed — no result other than a constant `false` may be
+    # produced on a path that skipped one of the arm's tests (an `&&` turned into `||` lets a string through on one test alone)
+    retl = {0}
+    grew = True
+    while grew:
+        grew = False
+        for bl in f.blocks:
+            for st in bl["stmts"]:
+                if st["lhs"]["l"] in retl and not st["lhs"]["p"] and st["rhs"]["rv"] == "use":
+                    o = st["rhs"]["ops"][0]
+                    if o.get("pl") and not o["pl"]["p"] and o["pl"]["l"] not in retl:
+                        retl.add(o["pl"]["l"])
+                        grew = True
+    CONJ = {"Guid": [r"<impl str>::len$", r"<impl str>::starts_with$", r"<impl str>::ends_with$", r"Iterator>?::(any|all)$", r"parse_str$"],
+            "Version": [r"Iterator>?::count$|::count$", r"Iterator>?::all$"], "Language": [r"Iterator>?::all$"],
+            "Identifier": [r"<impl str>::starts_with$", r"<impl str>::contains$"]}
+    for name, tests in sorted(CONJ.items()):
+        tg = arms.get(name)
+        if tg is None or tg == other:
+            continue
+        blks = {b for b in dom if tg in dom[b]}
+        tblocks = []
+        for rx in tests:
+            bs = {b for (b, n_, a_, t_) in symcalls(prog, f, S) if b in blks and re.search(rx, n_)}
+            if bs:
+                tblocks.append((rx, bs))
+        results = []
+        for b in blks:
+            bl = f.blocks[b]
+            for st in bl["stmts"]:
+                if st["lhs"]["l"] in retl and not st["lhs"]["p"]:
+                    o = st["rhs"].get("ops", [{}])[0] if st["rhs"]["rv"] == "use" else {}
+                    if o.get("pl") and not o["pl"]["p"] and o["pl"]["l"] in retl:
+                        continue  # a move of an already-counted result (the return place of an inlined helper)
+                    if not (o.get("k") == "const" and o.get("int") == 0):
+                        results.append(b)
+            t_ = bl["term"]
+            if t_["t"] == "call" and t_["dest"]["l"] in retl and not t_["dest"]["p"]:
+                results.append(t_["succ"][0] if t_.get("succ") else b)
+        skipped = []
+        for rb in results:
+            for rx, bs in tblocks:
+                if rb in bs:
+                    continue
+                if rb in cfg.reachable(f, tg, avoid=bs):
+                    skipped.append(rx.split("::")[-1].rstrip("$"))
+        ctx.check(not skipped, rule, "%s: accepted only after every test" % name, "%d tests on every accepting path" % len(tblocks),
+                  "Category::%s can accept a string on a path that skips its test(s) %s: the grammar's conditions are no longer all required" % (name, sorted(set(skipped))),
+                  f.loc(), fn=f.name, key="%s|conj|%s" % (rule, name))
+    # Cabinet, 8.3 branch: pieces in file order (rsplitn yields them reversed), and no acceptance that skipped the stem-length test
+    tg = arms.get("Cabinet")
+    if tg is not None and tg != other:
+        blks = {b for b in dom if tg in dom[b]}
+        sc = symcalls(prog, f, S)
+        split = [b for (b, n_, a_, t_) in sc if b in blks and re.search(r"<impl str>::(rsplitn|rsplit_once|rfind)$", n_)]
+        if split:
+            if any(n_.endswith("<impl str>::rsplitn") for (b, n_, a_, t_) in sc if b in blks):
+                rev = [b for (b, n_, a_, t_) in sc if b in blks and n_.endswith("<impl [T]>::reverse")]
+                ctx.check(len(rev) == 1 and split[0] in dom[rev[0]], rule, "Cabinet: rsplitn pieces are put back in order", "", "Category::Cabinet splits with rsplitn (last piece first) "
+                          "but does not reverse the pieces: the 8-character limit is applied to the extension and the 3-character limit to the stem", f.loc(), fn=f.name, key="%s|cabinet-reverse" % rule)
+            region = {b for b in blks if split[0] in dom[b]}
+            stem = {b for b in region for st in f.blocks[b]["stmts"] if st["rhs"]["rv"] == "bin" and st["rhs"]["op"] in ("Le", "Lt", "Gt", "Ge") and
+                    any(S.val(o) in ("c:8", "c:9") for o in st["rhs"]["ops"])}
+            # closures built in the region may hold the comparison (map_or(true, |ext| ..)) — only the stem test is required on every accepting path
+            accepting = []
+            for b in region:
+                for st in f.blocks[b]["stmts"]:
+                    if st["lhs"]["l"] in retl and not st["lhs"]["p"]:
+                        o = st["rhs"].get("ops", [{}])[0] if st["rhs"]["rv"] == "use" else {}
+                        if o.get("pl") and not o["pl"]["p"] and o["pl"]["l"] in retl:
+                            continue
+                        if not (o.get("k") == "const" and o.get("int") == 0) and b not in stem:
+                            accepting.append(b)
+            skipped = [b for b in accepting if stem and b in cfg.reachable(f, split[0], avoid=stem)]
+            ctx.check(bool(stem) and not skipped, rule, "Cabinet: accepted only after the stem-length test", "", "Category::Cabinet can accept a name on a path that skips the `stem.len() <= 8` test",
+                      f.loc(), fn=f.name, key="%s|cabinet-conj" % rule)
+    # categories without a grammar in this library accept everything (the default arm is `true`)
+    Stab, _d = tables.switch_table(prog, f)
+    ctx.check((Stab or {}).get("otherwise") == ("int", 1), rule, "categories without a grammar accept every string", str((Stab or {}).get("otherwise")),
+              "the default arm of Category::validate yields %s: columns of the remaining categories (Formatted, Path, Condition, ...) accept a different set of strings" % ((Stab or {}).get("otherwise"),),
+              f.loc(), fn=f.name, key="%s|default-arm" % rule)
     # Identifier: first character ASCII letter or '_', every other ASCII letter/digit, '_' or '.'
     from ..lib import closure_sites as _cs
     tg = arms.get("Identifier")
